@@ -151,7 +151,7 @@ func checkC01(r *mon.Run) {
 		c01IdlePhase(r, rng, s)
 	})
 	r.Require(int64(nStars*perStar), 60, "valid_accepted", "perturbed_rejected_scmp", "expired_rejected", "xover_second_hop_rejected", "epic_wrapped", "valid_then_tampered_pair",
-		"idle_accepted_before_expiry", "idle_rejected_after_expiry")
+		"idle_accepted_before_expiry", "idle_rejected_after_expiry", "refused_presented_again")
 }
 
 func c01Case(r *mon.Run, rng *rand.Rand, s *rfix.Star, idx int) {
@@ -304,6 +304,7 @@ func c01Case(r *mon.Run, rng *rand.Rand, s *rfix.Star, idx int) {
 	if p != nil {
 		pname = p.name
 	}
+	in0 := append([]byte(nil), in...)
 	t0 := time.Now()
 	res := s.Process(in, sc.In)
 	t1 := time.Now()
@@ -313,6 +314,20 @@ func c01Case(r *mon.Run, rng *rand.Rand, s *rfix.Star, idx int) {
 		return
 	}
 	universalC01(r, s, sc, pname, in, &res, fromOutside, t0, t1)
+	if p != nil && !res.Forwarded() && rng.IntN(3) == 0 {
+		// a refused packet presented again to the same processor stays refused
+		again := append([]byte(nil), in0...)
+		ta := time.Now()
+		res2 := s.Process(again, sc.In)
+		tb := time.Now()
+		r.Eval(1)
+		r.Event("refused_presented_again")
+		if res2.Panic != "" {
+			r.Violation("C01:panic:"+mon.PanicSite(res2.Stack), "panic while processing", witness(s, sc, pname+"/again", in0, &res2))
+			return
+		}
+		universalC01(r, s, sc, pname+"/presented-again", in0, &res2, fromOutside, ta, tb)
+	}
 	outcome := "drop"
 	if res.Forwarded() {
 		outcome = "forward"
